@@ -33,11 +33,20 @@ func (o *mObj) clone() *mObj {
 	return &c
 }
 
-type mState struct {
-	Cols map[string]map[string]*mObj
+type mHook struct {
+	Spec string
+	Dead bool
+	TTL  float64
 }
 
-func newMState() *mState { return &mState{Cols: map[string]map[string]*mObj{}} }
+type mState struct {
+	Cols  map[string]map[string]*mObj
+	Hooks map[string]*mHook // "h:name" / "c:name" -> definition
+}
+
+func newMState() *mState {
+	return &mState{Cols: map[string]map[string]*mObj{}, Hooks: map[string]*mHook{}}
+}
 
 func (s *mState) clone() *mState {
 	c := newMState()
@@ -47,6 +56,10 @@ func (s *mState) clone() *mState {
 			nc[id] = o.clone()
 		}
 		c.Cols[k] = nc
+	}
+	for k, h := range s.Hooks {
+		hh := *h
+		c.Hooks[k] = &hh
 	}
 	return c
 }
@@ -74,6 +87,14 @@ func (s *mState) canon() string {
 			fmt.Fprintf(&sb, "%s=%s|%s|%s;", id, o.Val, o.fieldsStr(), d)
 		}
 		sb.WriteString("}")
+	}
+	for _, k := range sortedKeys(s.Hooks) {
+		h := s.Hooks[k]
+		d := "-"
+		if h.Dead {
+			d = "T"
+		}
+		sb.WriteString("@" + k + "=" + h.Spec + "|" + d + ";")
 	}
 	return sb.String()
 }
@@ -408,6 +429,7 @@ func mApply(s *mState, a []string) string {
 			return eNArg
 		}
 		s.Cols = map[string]map[string]*mObj{}
+		s.Hooks = map[string]*mHook{}
 		return "+OK"
 	case "expire":
 		if len(a) != 4 {
@@ -501,6 +523,83 @@ func mApply(s *mState, a []string) string {
 		}
 		o.Val, o.Dead = nj, false
 		return ":1"
+	case "sethook", "setchan":
+		pre := "h:"
+		i := 3
+		if cmd == "setchan" {
+			pre, i = "c:", 2
+		}
+		if len(a) <= i {
+			return eNArg
+		}
+		h := &mHook{}
+		rest := a[i:]
+		for j := 0; j+1 < len(rest); j++ {
+			if strings.ToLower(rest[j]) == "ex" {
+				if f, err := strconv.ParseFloat(rest[j+1], 64); err == nil {
+					h.Dead, h.TTL = true, f
+				}
+			}
+		}
+		h.Spec = strings.Join(a[2:], " ")
+		old := s.Hooks[pre+a[1]]
+		s.Hooks[pre+a[1]] = h
+		if old != nil && old.Spec == h.Spec && !h.Dead {
+			return ":0"
+		}
+		return ":1"
+	case "delhook", "delchan":
+		if len(a) != 2 {
+			return eNArg
+		}
+		pre := "h:"
+		if cmd == "delchan" {
+			pre = "c:"
+		}
+		if s.Hooks[pre+a[1]] == nil {
+			return ":0"
+		}
+		delete(s.Hooks, pre+a[1])
+		return ":1"
+	case "pdelhook", "pdelchan":
+		if len(a) != 2 {
+			return eNArg
+		}
+		pre := "h:"
+		if cmd == "pdelchan" {
+			pre = "c:"
+		}
+		n := 0
+		for _, k := range sortedKeys(s.Hooks) {
+			if strings.HasPrefix(k, pre) && mGlob(a[1], k[2:]) {
+				delete(s.Hooks, k)
+				n++
+			}
+		}
+		return ":" + strconv.Itoa(n)
+	case "@advance":
+		dt, _ := strconv.ParseFloat(a[1], 64)
+		for _, k := range sortedKeys(s.Cols) {
+			for _, id := range sortedKeys(s.Cols[k]) {
+				o := s.Cols[k][id]
+				if o.Dead {
+					o.TTL -= dt
+					if o.TTL <= 0 {
+						s.del(k, id)
+					}
+				}
+			}
+		}
+		for _, k := range sortedKeys(s.Hooks) {
+			h := s.Hooks[k]
+			if h.Dead {
+				h.TTL -= dt
+				if h.TTL <= 0 {
+					delete(s.Hooks, k)
+				}
+			}
+		}
+		return "~any"
 	// ---- reads
 	case "get":
 		if len(a) < 3 {
